@@ -700,5 +700,8 @@ def run(tier="quick", root="/repo", evidence_dir=None, quiet=False):
     repo = get_repo(root)
     for rule in (rule_r1, rule_r2, rule_r3, rule_r4, rule_r6, rule_r7):
         rep.attempt(rule, rep, repo)
+    # R8: the assembled grid is radial x shell (symbolic evaluation of the generator, E10)
+    from gridlint import shell_product
+    rep.attempt(shell_product.rule_shell_product, rep, repo)
     rep.extra["source_digest"] = repo.digest(["atomgrid", "angular"])
     return rep.finish(evidence_dir=evidence_dir, quiet=quiet)
